@@ -27,50 +27,50 @@ type Config struct {
 	MaxNest     int // container nesting depth (≤ 4)
 
 	Enums, Typedefs, Unions, Exceptions, Services, Consts bool
-	Defaults       bool // field defaults
-	TypedefChains  bool // typedef of typedef, also across files
-	CrossFile      bool // references into included files
-	Recursive      bool // recursive types (self / mutual), through optional and default fields and containers
-	NegativeIDs    bool
-	ImplicitIDs    bool
-	SparseIDs      bool
-	ExtremeIDs     bool // 0, 32767, -32768
-	StructMapKeys  bool // map<Struct, …>
-	BinaryMapKeys  bool // map<binary, …> (Go key type string); fastgo's FastRead does not compile for it
-	StructLiterals bool // struct-typed defaults / constants
-	ContainerConst bool // list/set/map literals
-	ConstIdents    bool // defaults referring to constants by (qualified) identifier
-	EnumByNumber   bool
-	IntForDouble   bool
-	BoolAsInt      bool
-	Annotations    bool
-	EqualBaseNames bool // files with equal base names in different directories
-	SharedGoNS     bool // two files with the same `namespace go`
-	NoGoNS         bool // files without `namespace go`
-	ForwardRefs    bool // fields referring to struct-likes defined later in the file
-	Namespaces     bool // dotted go namespaces
+	Defaults                                              bool // field defaults
+	TypedefChains                                         bool // typedef of typedef, also across files
+	CrossFile                                             bool // references into included files
+	Recursive                                             bool // recursive types (self / mutual), through optional and default fields and containers
+	NegativeIDs                                           bool
+	ImplicitIDs                                           bool
+	SparseIDs                                             bool
+	ExtremeIDs                                            bool // 0, 32767, -32768
+	StructMapKeys                                         bool // map<Struct, …>
+	BinaryMapKeys                                         bool // map<binary, …> (Go key type string); fastgo's FastRead does not compile for it
+	StructLiterals                                        bool // struct-typed defaults / constants
+	ContainerConst                                        bool // list/set/map literals
+	ConstIdents                                           bool // defaults referring to constants by (qualified) identifier
+	EnumByNumber                                          bool
+	IntForDouble                                          bool
+	BoolAsInt                                             bool
+	Annotations                                           bool
+	EqualBaseNames                                        bool // files with equal base names in different directories
+	SharedGoNS                                            bool // two files with the same `namespace go`
+	NoGoNS                                                bool // files without `namespace go`
+	ForwardRefs                                           bool // fields referring to struct-likes defined later in the file
+	Namespaces                                            bool // dotted go namespaces
 
 	// ---- OFF by default: shapes the unchanged tree does not digest (candidate defects) ----
-	ContainerMapKeys     bool // map<list<i32>, …>: Go has no slice/map keys
-	TypedefContainerFast bool // (kept on for go; a fastgo unit must use a program generated with NoTypedefContainers)
-	NoTypedefContainers  bool // do not generate typedefs of container types (needed by fastgo units)
-	BinaryDefaults       bool // defaults for binary fields
-	StringEscapes        bool // quotes / backslashes in string literals
-	SamePrefixIncludes   bool // one file including two files with equal base names
-	SetOfContainers      bool // set<list<…>> with defaults etc.
-	KeywordNames         bool // Go keywords in the stress name pool
-	TypedefContainerConst     bool // constant/default whose type is a typedef of a container: thriftgo panics (nil deref in resolveConst)
-	StructLiteralInContainer  bool // struct literals inside list/set/map literals: do not compile under value_type_in_container
-	CrossFileLiteralIdents    bool // identifiers (constants, enum members) inside a literal of a struct that is defined in ANOTHER file: resolved in the wrong scope, index out of range in getIDValue
-	ExponentDoubles      bool // 1.5e-3: the parser takes the exponent for the value (DESIGN §7, C03)
+	ContainerMapKeys             bool // map<list<i32>, …>: Go has no slice/map keys
+	TypedefContainerFast         bool // (kept on for go; a fastgo unit must use a program generated with NoTypedefContainers)
+	NoTypedefContainers          bool // do not generate typedefs of container types (needed by fastgo units)
+	BinaryDefaults               bool // defaults for binary fields
+	StringEscapes                bool // quotes / backslashes in string literals
+	SamePrefixIncludes           bool // one file including two files with equal base names
+	SetOfContainers              bool // set<list<…>> with defaults etc.
+	KeywordNames                 bool // Go keywords in the stress name pool
+	TypedefContainerConst        bool // constant/default whose type is a typedef of a container: thriftgo panics (nil deref in resolveConst)
+	StructLiteralInContainer     bool // struct literals inside list/set/map literals: do not compile under value_type_in_container
+	CrossFileLiteralIdents       bool // identifiers (constants, enum members) inside a literal of a struct that is defined in ANOTHER file: resolved in the wrong scope, index out of range in getIDValue
+	ExponentDoubles              bool // 1.5e-3: the parser takes the exponent for the value (DESIGN §7, C03)
 	CrossFileLiteralForeignTypes bool // literal of a struct from another file that sets a member whose type lives in a third file: unused import
-	StructConstByIdent    bool // struct-typed constant/default given by the identifier of another constant: the type's package is imported but unused
-	BinaryConstIdents     bool // binary constant referenced by identifier where Go wants a string (map key): []byte vs string
-	CrossFileScalarConstType bool // `const b.T C = 1` with b.T an enum / typedef of a base type of another file: Go constant is untyped, import unused
-	OptionalEnumInLiteral bool // struct literal that sets an optional enum member: `&EnumConst` (address of a constant) does not compile
-	ShortPackageNames    bool // files without go namespace whose base name is a single letter: package c/b/p/… is shadowed by locals of the templates
-	CollidingNames       bool // stress names known to collide with generated methods (init_default, …)
-	DupThrows            bool // the same exception type twice in one throws list (duplicate case in the processor's type switch)
+	StructConstByIdent           bool // struct-typed constant/default given by the identifier of another constant: the type's package is imported but unused
+	BinaryConstIdents            bool // binary constant referenced by identifier where Go wants a string (map key): []byte vs string
+	CrossFileScalarConstType     bool // `const b.T C = 1` with b.T an enum / typedef of a base type of another file: Go constant is untyped, import unused
+	OptionalEnumInLiteral        bool // struct literal that sets an optional enum member: `&EnumConst` (address of a constant) does not compile
+	ShortPackageNames            bool // files without go namespace whose base name is a single letter: package c/b/p/… is shadowed by locals of the templates
+	CollidingNames               bool // stress names known to collide with generated methods (init_default, …)
+	DupThrows                    bool // the same exception type twice in one throws list (duplicate case in the processor's type switch)
 }
 
 // DefaultConfig has every digestible feature on.
@@ -103,18 +103,18 @@ type constInfo struct {
 }
 
 type gen struct {
-	r      *vl.Rng
-	cfg    Config
-	p      *Program
-	names  map[string]bool // used global names (whole program)
-	nsUsed map[string]bool
-	consts []constInfo
-	ctr    map[string]int
-	done   []bool // file fully generated
-	cur     int            // file being generated
-	nsNames map[string]int // normalised name within a go namespace -> file that declared it
-	noIdent int            // > 0: inside a literal in which identifiers must not be used
-	will   map[*Field]bool // fields that are going to get a default (decided before any literal is built)
+	r       *vl.Rng
+	cfg     Config
+	p       *Program
+	names   map[string]bool // used global names (whole program)
+	nsUsed  map[string]bool
+	consts  []constInfo
+	ctr     map[string]int
+	done    []bool          // file fully generated
+	cur     int             // file being generated
+	nsNames map[string]int  // normalised name within a go namespace -> file that declared it
+	noIdent int             // > 0: inside a literal in which identifiers must not be used
+	will    map[*Field]bool // fields that are going to get a default (decided before any literal is built)
 }
 
 // Generate builds a random program. All choices come from r.
@@ -261,6 +261,7 @@ var stressFieldNames = []string{
 	"read", "write", "string", "String", "Read", "Write", "get_x", "x", "set_x", "is_set_x", "field_1", "p", "err", "_x", "x_",
 	"http_url", "HTTPUrl", "json", "Error", "count_set_fields", "deep_equal", "value", "key", "size", "v", "ctx",
 }
+
 // names known to produce Go that does not compile on the unchanged tree (Config.CollidingNames puts them back)
 var collidingTypeNames = []string{
 	"_item", // Go name _Item is not exported: cross-package references do not compile
@@ -273,7 +274,11 @@ var goKeywords = []string{
 	"type", "func", "range", "select", "chan", "go", "var", "package", "import", "interface", "default", "switch", "case",
 	"return", "break", "continue", "for", "if", "else", "goto", "defer", "fallthrough",
 }
-var stressFuncNames = []string{"get", "Get", "get_item", "getItem", "ping", "new_client", "process", "call", "Send", "recv", "a_b", "aB", "close", "String"}
+var stressFuncNames = []string{"get", "Get_", "get_item", "ping", "new_client", "process", "call", "Send", "recv", "a_b", "close", "String"}
+
+// function names that identify to the same Go method name as another pool member: the service interface
+// then declares the method twice (duplicate method AB) -- only with Config.CollidingNames
+var collidingFuncNames = []string{"aB", "Get", "getItem"}
 
 func (g *gen) fresh(prefix string) string {
 	for {
@@ -538,8 +543,8 @@ func (p *Program) catOf(t *Type) byte {
 }
 
 type typeCtx struct {
-	fi      int
-	forward []*Struct // struct-likes of this file declared later (names only)
+	fi       int
+	forward  []*Struct // struct-likes of this file declared later (names only)
 	noStruct bool
 }
 
@@ -816,7 +821,11 @@ func (g *gen) service(fi int) *Service {
 	}
 	ctx := typeCtx{fi: fi}
 	for i, n := 0, g.r.Intn(4); i < n; i++ {
-		fn := &Function{Name: g.localName(used, "fn", stressFuncNames)}
+		pool := stressFuncNames
+		if g.cfg.CollidingNames {
+			pool = append(append([]string{}, pool...), collidingFuncNames...)
+		}
+		fn := &Function{Name: g.localName(used, "fn", pool)}
 		switch x := g.r.Intn(100); {
 		case x < 15:
 			fn.Oneway = true
